@@ -1336,6 +1336,7 @@ def run(ctx):
 
     float_division(ctx, rng)
     float_execution(ctx, rng, quick)
+    float32_bounds(ctx, rng, quick)
 
     model = common.driver(ctx.pid, reqs)
     bad = [i for i in range(len(reqs))
@@ -1537,6 +1538,89 @@ def float_execution(ctx, rng, quick):
     ctx.count("float-execution:entries", n_entries)
     ctx.count("float-execution:bit-exact", n_exact)
     ctx.count("float-execution:other-order", n_other)
+
+
+def float32_bounds(ctx, rng, quick):
+    """Round 5: window bounds given as Python floats that are *not* float32 numbers.  NumPy 2
+    converts such a bound to the grid's float32 and compares in float32; the model does the same
+    (`applyWindow32`: `rn32` of the bounds, coinciding-bounds tests on the unrounded floats).
+    `float32_comparison_exact` proves that on float32 numbers this is the exact comparison (all other
+    streams); `float32_bound_rounding_changes_selection` shows the difference otherwise.  These
+    windows are outside the stated claim (interpretation decision), so this stream is a
+    correspondence only: the implementation must behave like the float32 model or -- a library
+    comparing in double -- like the exact model; which one is counted, not prescribed."""
+    from pyunicorn.core import GeoGrid
+    from pyunicorn.climate import ClimateData
+    reqs32, reqsx, impl, meta = [], [], [], []
+    for _ in range(80 if quick else 800):
+        T, N, c = rng.randrange(3, 10), rng.randrange(2, 6), rng.choice([1, 2, 3])
+        scale = rng.choice([1, 1, 2 ** 10, 2 ** -6])
+        time = sorted(rng.sample(range(-40, 80), T))
+        time = [t / 8 * scale for t in time]
+        lat = [rng.randrange(-80, 80) / 8 for _ in range(N)]
+        lon = [rng.randrange(0, 160) / 8 for _ in range(N)]
+        obs = [[float(rng.randrange(-50, 50) * 6) for _ in range(N)] for _ in range(T)]
+
+        def near(xs):
+            x = rng.choice(xs)
+            r = rng.random()
+            if r < 0.25:
+                return x
+            if r < 0.7:       # closer to the sample than half a float32 ulp: rounds onto it
+                return x + rng.choice([-1, 1]) * max(abs(x), 2.0 ** -10) * 2.0 ** -rng.choice([26, 30, 40])
+            if r < 0.85:      # clearly off the sample
+                return x + rng.choice([-1, 1]) * max(abs(x), 1.0) * 2.0 ** -rng.choice([10, 20])
+            return x + rng.choice([0.1, -0.1, 1 / 3])
+        ops32, opsx, wins = [], [], []
+        for _ in range(rng.randrange(1, 4)):
+            b = sorted([near(time), near(time)]) + sorted([near(lat), near(lat)]) \
+                + sorted([near(lon), near(lon)])
+            if rng.random() < 0.3:
+                b[2] = b[3] = 0.0           # whole spatial extent: the time axis decides
+            w = dict(zip(WKEYS, (float(x) for x in b)))
+            wins.append(w)
+            tok = ",".join(enc_num(w[k]) for k in WKEYS)
+            ops32 += ["W32=" + tok, "o", "g", "cs"]
+            opsx += ["W=" + tok, "o", "g", "cs"]
+        head = ["run", str(c), "0", "G", enc_vec(time), enc_vec(lat), enc_vec(lon),
+                ";".join(enc_vec(r) for r in obs)]
+        grid = GeoGrid(np.array(time), np.array(lat), np.array(lon), 2)
+        outs = ["ok"]
+        with quiet():
+            d = ClimateData(np.array(obs), grid, c, silence_level=2)
+            for w in wins:
+                try:
+                    d.set_window(w)
+                    outs.append("ok")
+                except ValueError:
+                    outs.append("raise:ValueError")
+                g = d.grid.grid()
+                outs += [enc_mat(d.observable()),
+                         "~".join(enc_vec(g[k]) for k in ("time", "lat", "lon")),
+                         ",".join(str(int(x)) for x in d.__cache_state__())]
+        reqs32.append(" ".join(head + ops32))
+        reqsx.append(" ".join(head + opsx))
+        impl.append("|".join(outs))
+        meta.append(f"time={time} lat={lat} lon={lon} windows={wins}")
+    m32 = common.driver(ctx.pid, reqs32)
+    mx = common.driver(ctx.pid, reqsx)
+    bad, n32, nx, nboth = [], 0, 0, 0
+    for a, b, i, what in zip(m32, mx, impl, meta):
+        if a == b == i:
+            nboth += 1
+        elif i == a:
+            n32 += 1
+        elif i == b:
+            nx += 1
+        else:
+            bad.append(f"{what[:300]} :: float32 model={a[:200]} exact model={b[:200]} impl={i[:200]}")
+    ctx.obligation(
+        f"correspondence: set_window with Python-float bounds that are not float32 numbers "
+        f"({len(impl)} histories: {nboth} where rounding the bounds does not matter, {n32} follow the "
+        f"float32 model only, {nx} the exact model only)", "correspondence", not bad, "\n".join(bad[:5]))
+    ctx.count("float32-bounds:rounding-irrelevant", nboth)
+    ctx.count("float32-bounds:float32-semantics", n32)
+    ctx.count("float32-bounds:exact-semantics", nx)
 
 
 class _Probe:
